@@ -22,9 +22,9 @@ together contain every component class glue has (plain, categorical, datetime, d
 coordinate, dask, extended = the region column of a `RegionData`).
   axes           `ImageViewerState` axis setters.
 
-Matplotlib rendering (`FigureCanvasAgg.draw`, `draw_idle`) is stubbed out in this process: it is
-not part of the bookkeeping under test and costs 20-50x the rest (measured: 0.3 s per operation
-with rendering, 10 ms without).
+Matplotlib rendering (`FigureCanvasAgg.draw`, `draw_idle`, the tick layout of astropy's WCSAxes) is
+stubbed out in this process: it is not part of the bookkeeping under test and costs 20-50x the rest
+(measured: 0.3 s per operation with rendering, 10 ms without).
 """
 import gc
 import itertools
@@ -43,6 +43,10 @@ from matplotlib.backends.backend_agg import FigureCanvasAgg  # noqa: E402
 
 FigureCanvasBase.draw_idle = lambda self, *a, **k: None
 FigureCanvasAgg.draw = lambda self, *a, **k: None
+# the tick / label layout of astropy's WCSAxes (run by every set_xlabel / set_ylabel of the image
+# viewer, 10-25 ms each, 80 % of an image-viewer case) is rendering too
+from astropy.visualization.wcsaxes.core import WCSAxes  # noqa: E402
+WCSAxes._update_tick_and_label_positions = lambda self, *a, **k: None
 
 from glue.core import Data, DataCollection  # noqa: E402
 from glue.core.application_base import Application  # noqa: E402
@@ -71,9 +75,17 @@ def _gc_setup():
 
 VIEWERS = {'sc': SimpleScatterViewer, 'hi': SimpleHistogramViewer,
            'im': SimpleImageViewer, 'pr': SimpleProfileViewer}
-# restoring a histogram / profile viewer fails on this tree because of C12's known finding F12
-# (the patch table rewrites their layer-artist class names to glue_qt.*)
-RESTORABLE = ('sc', 'im')
+# all four classes are saved and restored (histogram / profile viewers with layers restore since
+# `fix: patch fallback to live class` = C12's F12b; before, finding C18c)
+RESTORABLE = ('sc', 'im', 'hi', 'pr')
+# datasets an image viewer shows as scatter / region overlays (1-d)
+ONE_D = ('std', 'reg', 'ext1', 'dask')
+
+
+def _refused(exc):
+    """SimpleImageViewer refuses a 1-d dataset / subset while it has no layer at all (by design:
+    `_scatter_artist` / `_region_artist`); nothing has been touched when this is raised"""
+    return type(exc) is Exception and 'once an image is present' in str(exc)
 
 
 # ---------------------------------------------------------------------------------------------
@@ -396,12 +408,21 @@ class ViewWorld:
                     v.add_data(self.data[op[1]])
                 except IncompatibleDataException:
                     self.err = True
+                except Exception as exc:
+                    if not _refused(exc):
+                        raise
+                    self.err = True
             else:
                 self.err = True  # the model: a dataset that does not exist is not in the collection
         elif k == 'vas':
             s = self._sub(op[1], op[2])
             if s is not None:
-                v.add_subset(s)
+                try:
+                    v.add_subset(s)
+                except Exception as exc:
+                    if not _refused(exc):
+                        raise
+                    self.err = True
         elif k == 'vrd':
             if op[1] < nd:
                 v.remove_data(self.data[op[1]])
@@ -519,6 +540,17 @@ class ViewWorld:
 
 ND, NG = 2, 2
 VIEW_TMPLS = ['bare', 'reg', 'std', 'ext1', 'drv', 'dask']
+# image viewer + 1-d datasets: dataset 0 is the image, dataset 1 the table / region list
+IMAGE_1D_TMPLS = [['bare', 'std'], ['drv', 'reg'], ['bare', 'ext1'], ['drv', 'std']]
+IMAGE_1D_SEEDS = [
+    [['app', 0], ['app', 1], ['vad', 0], ['vad', 1], ['vrd', 0]],                      # the C18b witness
+    [['app', 0], ['app', 1], ['vad', 0], ['vad', 1], ['rem', 0]],                      # ... through dc.remove
+    [['app', 0], ['app', 1], ['vad', 0], ['vad', 1], ['vrd', 0], ['rst'], ['vad', 0]],  # saved without reference data
+    [['app', 0], ['app', 1], ['vad', 1], ['vad', 0], ['vad', 1], ['rst'], ['vrd', 0], ['vad', 0]],   # refused first
+    [['app', 0], ['app', 1], ['ng'], ['vas', 1, 0], ['vad', 0], ['vas', 1, 0], ['vrd', 0], ['ng'], ['rst']],
+    [['app', 0], ['app', 1], ['ng'], ['vad', 0], ['vad', 1], ['vps', 0, None], ['rg', 0], ['vad', 0], ['vrl', 0, None]],
+]
+IMAGE_1D_ALPHA = [['vad', 0], ['vad', 1], ['vrd', 0], ['vrd', 1], ['rem', 0], ['ng'], ['vps', 0, None], ['rst']]
 
 
 def _savable(tmpls, ops):
@@ -591,21 +623,9 @@ def _run_view(case):
     gc.disable()
     w = ViewWorld(n, cls)
     snaps = [w.snapshot()]
-    dead = False
     for op in ops:
-        if not dead:
-            if op[0] == 'rst' and cls not in RESTORABLE:
-                # C12/F12: the load of a histogram / profile viewer with layers raises
-                try:
-                    w.apply(op)
-                except ValueError as exc:
-                    if 'glue_qt' not in str(exc):
-                        raise
-                    dead = True
-                    w.restored = True
-            else:
-                w.apply(op)
-        snaps.append('dead' if dead else w.snapshot())
+        w.apply(op)
+        snaps.append(w.snapshot())
     w.recycle()
     w.keep.clear()
     return snaps
@@ -702,8 +722,6 @@ def random_view_seq(rng, length, nd, cls, max_groups=3):
             if made >= max_groups:
                 continue
             made += 1
-        if op[0] == 'rst' and cls not in RESTORABLE:
-            continue
         ops.append(op)
     return ops
 
@@ -724,7 +742,9 @@ def _view_features(case):
     cls, ops = case[2], case[3]
     f = set()
     if any(o[0] == 'rst' for o in ops):
-        f.add('restore' if cls in RESTORABLE else 'restore-patched-artist')
+        f.add('restore-patched-artist' if cls in ('hi', 'pr') else 'restore')
+    if cls == 'im' and not isinstance(case[0], int) and any(t in ONE_D for t in case[0]):
+        f.add('image-1d')
     return f
 
 
@@ -767,16 +787,33 @@ class View(Family):
         for ops in seeds:
             for c in keys:
                 yield [ND, nc, c, ops]
-        # finding stratum (C12/F12 seen from here): restore of a histogram / profile viewer with layers
-        for c in ('hi', 'pr'):
-            yield [ND, nc, c, [['app', 0], ['vad', 0], ['rst']]]
-            yield [ND, nc, c, [['app', 0], ['ng'], ['vad', 0], ['rst'], ['vrd', 0]]]
-            yield [ND, nc, c, [['app', 0], ['rst'], ['vad', 0], ['ng']]]
-        for ops in ([['app', 0], ['ng'], ['vad', 0], ['rst'], ['ng'], ['rem', 0]],
+        # restore of every class with layers (histogram / profile: the former finding C18c = C12's F12)
+        for ops in ([['app', 0], ['vad', 0], ['rst']],
+                    [['app', 0], ['ng'], ['vad', 0], ['rst'], ['vrd', 0]],
+                    [['app', 0], ['rst'], ['vad', 0], ['ng']],
+                    [['app', 0], ['ng'], ['vad', 0], ['rst'], ['ng'], ['rem', 0]],
                     [['app', 0], ['app', 1], ['ng'], ['vad', 0], ['vad', 1], ['vps', 0, None], ['rst'], ['ng'], ['rg', 0]],
                     [['app', 0], ['ng'], ['vas', 0, 0], ['rst'], ['vad', 0], ['rst']]):
             for c in RESTORABLE:
                 yield [ND, nc, c, ops]
+        # image viewer with 1-d datasets (tables / regions shown as overlays; the former finding C18b):
+        # dataset 0 an image, dataset 1 a table, and the other way round
+        for ops in IMAGE_1D_SEEDS:
+            for tm in (['bare', 'std'], ['drv', 'reg'], ['bare', 'ext1']):
+                yield [tm, nc, 'im', ops]
+        for tm in (['std', 'bare'], ['reg', 'drv']):
+            for ops in ([['app', 0], ['app', 1], ['vad', 0], ['vad', 1], ['vad', 0], ['vrd', 1], ['rst']],
+                        [['app', 0], ['app', 1], ['ng'], ['vas', 0, 0], ['vad', 1], ['vas', 0, 0], ['rem', 1], ['ng']]):
+                yield [tm, nc, 'im', ops]
+        # every sequence of 3 (thorough 4) ops over a small alphabet once the image and the table are
+        # layers, of 2 (3) ops once they are in the collection
+        Li = 3 if tier == "quick" else 4
+        for pre, Lp in (([['app', 0], ['app', 1]], Li - 1), ([['app', 0], ['app', 1], ['vad', 0], ['vad', 1]], Li)):
+            for seq in itertools.product(IMAGE_1D_ALPHA, repeat=Lp):
+                ops = pre + [list(o) for o in seq]
+                if _valid_view(ops):
+                    yield [IMAGE_1D_TMPLS[k % len(IMAGE_1D_TMPLS)], nc, 'im', ops]
+                    k += 1
         # exhaustive: one extended op at every position of every core sequence
         Lx = 2 if tier == "quick" else 3
         for n_before in range(0, Lx + 1):
@@ -787,7 +824,7 @@ class View(Family):
                         if not (_valid_view(ops) and _canonical_view(ops)):
                             continue
                         if x[0] == 'rst':
-                            yield [ND, nc, RESTORABLE[k % 2], ops]
+                            yield [ND, nc, RESTORABLE[k % 4], ops]
                             k += 1
                         else:
                             yield [ND, nc, cls_next(), ops]
@@ -821,6 +858,11 @@ class ViewRandom(View):
             # data, dask, derived, ... as layers); image / profile viewers need n-d arrays
             if cls in ('sc', 'hi') and (i // 4) % 2:
                 yield [_savable([rng.choice(VIEW_TMPLS) for _ in range(nd)], ops), nc, cls, ops]
+            elif cls == 'im' and (i // 4) % 2:
+                # images and tables / region lists mixed (at least one image)
+                tm = [rng.choice(('bare', 'drv', 'std', 'reg', 'ext1')) for _ in range(nd)]
+                tm[rng.randrange(nd)] = rng.choice(('bare', 'drv'))
+                yield [tm, nc, cls, ops]
             else:
                 yield [nd, nc, cls, ops]
 
@@ -844,7 +886,7 @@ class VPick(View):
             for x in VEXT + [['rst']]:
                 ops = pre + [list(x)]
                 if _valid_view(ops) and _canonical_view(ops):
-                    yield [ND, nc, 'sc' if x[0] == 'rst' else ('sc', 'hi')[k % 2], ops]
+                    yield [ND, nc, ('sc', 'hi')[k % 2], ops]
                     k += 1
         # datasets of every component class as layers: every sequence of 2 (thorough 4) ops over a small
         # alphabet with flag flips after both datasets are layers / in the collection only, template
@@ -875,8 +917,13 @@ class VPick(View):
             ops = random_view_seq(rng, rng.randint(4, 12), 3, cls)
             tm = 3 if i % 3 == 0 else _savable([rng.choice(TMPLS) for _ in range(3)], ops)
             if i % 3 == 2:
+                # the `none` option is helper configuration no viewer state of glue sets; it is not part
+                # of a saved session, while a selection of None made under it is (echo re-applies an
+                # explicit None unconditionally, theorem explicit_none_accepted): histories with a
+                # restore do not flip it
+                names = [f for f in FLAG_NAMES if f != 'none'] if any(o[0] == 'rst' for o in ops) else FLAG_NAMES
                 for _ in range(rng.randint(1, 4)):
-                    ops.insert(rng.randint(0, len(ops)), ['vfl', rng.randrange(2), rng.choice(FLAG_NAMES), rng.random() < 0.5])
+                    ops.insert(rng.randint(0, len(ops)), ['vfl', rng.randrange(2), rng.choice(names), rng.random() < 0.5])
             yield [tm, nc, cls, ops]
 
 
@@ -901,6 +948,7 @@ from glue.core.component_id import ComponentID  # noqa: E402
 from glue.core.data_combo_helper import (ComponentIDComboHelper, ManualDataComboHelper,  # noqa: E402
                                          DataCollectionComboHelper)
 from glue.viewers.image.state import ImageViewerState, ImageLayerState  # noqa: E402
+from glue.viewers.scatter.state import ScatterLayerState  # noqa: E402
 
 
 class ExState(State):
@@ -1538,7 +1586,9 @@ class AxesWorld:
                 st.reference_data = self.data[a]
             elif k == 'al':
                 if a not in self.ls:
-                    ls = ImageLayerState(layer=self.data[a], viewer_state=st)
+                    # what the viewer does: 1-d datasets are scatter overlays (`get_data_layer_artist`)
+                    lcls = ImageLayerState if self.data[a].ndim >= 2 else ScatterLayerState
+                    ls = lcls(layer=self.data[a], viewer_state=st)
                     self.ls[a] = ls
                     self.keep.append(ls)
                     st.layers.append(ls)
@@ -1598,10 +1648,11 @@ def axes_sequences(ndims, length, alphabet, prefix):
             layers.append(a)
         elif k == 'rl' and a in layers:
             layers.remove(a)
-        elif k == 'ref' and a in layers:
+        elif k == 'ref' and a in layers and ndims[a] >= 2:
             ref = a
-        if ref not in layers:
-            ref = layers[0] if layers else None
+        choices = [d for d in layers if ndims[d] >= 2]
+        if ref not in choices:
+            ref = choices[0] if choices else None
         return layers, ref
 
     def rec(seq, layers, ref, n):
@@ -1631,10 +1682,11 @@ def _axes_filter(ndims, seq):
             layers.append(a)
         elif k == 'rl' and a in layers:
             layers.remove(a)
-        elif k == 'ref' and a in layers:
+        elif k == 'ref' and a in layers and ndims[a] >= 2:
             ref = a
-        if ref not in layers:
-            ref = layers[0] if layers else None
+        choices = [d for d in layers if ndims[d] >= 2]
+        if ref not in choices:
+            ref = choices[0] if choices else None
         out.append(op)
     return out
 
@@ -1660,9 +1712,11 @@ class Axes(Family):
 
     def cases(self, tier, rng):
         kinds = ['none', 'id', 'aff']
-        # the finding stratum: a 1-d dataset becomes the reference data
+        # the former finding C18b: a 1-d dataset (a table shown as scatter overlay) must never become
+        # the reference data
         yield [[2, 1], [False, False], ['none', 'none'], [['al', 0], ['al', 1], ['rl', 0]]]
         yield [[3, 1], [True, True], ['id', 'id'], [['al', 0], ['al', 1], ['ref', 1]]]
+        yield [[1, 2], [True, False], ['aff', 'none'], [['al', 0], ['ref', 0], ['al', 1], ['rl', 1], ['al', 1], ['rl', 0]]]
         ndims = [3, 2]
         pre = [['al', 0], ['al', 1]]
         k = 0
@@ -1671,6 +1725,28 @@ class Axes(Family):
             nonlocal k
             k += 1
             return kinds[k % 3]
+        # images and tables mixed: every sequence of length 2 (thorough: 3 for the pairs 3+1 and 1+2)
+        # over the full alphabet from the empty state and after both datasets became layers, for four
+        # dimension pairs; samples of the next length; random longer histories
+        L1 = 2 if tier == "quick" else 3
+        for nd1 in ([3, 1], [1, 2], [2, 1], [1, 1]):
+            for p in ([], pre):
+                for seq in axes_sequences(nd1, L1 if nd1[1] != 1 or nd1[0] == 3 else 2, AXES_ALPHA, p):
+                    c = kind()
+                    yield [nd1, [c != 'none'] * 2, [c, c], seq]
+        for nd1 in ([3, 1], [1, 2]):
+            allseq = list(axes_sequences(nd1, L1 + 1, AXES_ALPHA, pre))
+            for seq in rng.sample(allseq, 500 if tier == "quick" else 3000):
+                c = kind()
+                yield [nd1, [c != 'none'] * 2, [c, c], seq]
+        for _ in range(300 if tier == "quick" else 10000):
+            nd1 = rng.choice(([3, 1], [1, 2], [2, 1], [1, 3], [1, 1]))
+            seq = []
+            for _ in range(rng.randint(4, 10 if tier == "quick" else 14)):
+                seq.append(list(rng.choice(AXES_ALPHA)))
+            seq = _axes_filter(nd1, seq)
+            cs = [rng.choice(kinds), rng.choice(kinds)]
+            yield [nd1, [c != 'none' for c in cs], cs, seq]
         if tier == "quick":
             # every setter sequence of length 3 on the 3-d and (after ref 1) the 2-d reference data,
             # coordinate kind rotating; every sequence of length 3 over the full alphabet
@@ -1752,7 +1828,7 @@ PROP = Property(
     id="C18",
     title="Viewers and attribute pickers mirror the collection",
     theorems=["C18.viewer_inv_init", "C18.viewer_step_inv", "C18.viewer_reachable_inv", "C18.viewer_reachable_spec",
-              "C18.viewer_mirrors_collection", "C18.viewer_layers_plain", "C18.restore_layers",
+              "C18.viewer_mirrors_collection", "C18.viewer_layers_plain", "C18.restore_layers", "C18.viewer_refusing_spec",
               "C18.refresh_sound_complete", "C18.kind_filter_whitelist", "C18.unfiltered_kind_never_offered",
               "C18.class_offered_iff", "C18.kinds_covered", "C18.refresh_order", "C18.refresh_nodup", "C18.refresh_none",
               "C18.selection_valid_after_refresh", "C18.selection_valid", "C18.picker_after_refresh_ok",
@@ -1761,14 +1837,14 @@ PROP = Property(
               "C18.image_axes_distinct", "C18.image_axes_spec", "C18.image_1d_reference_crashes"],
     families=[Kinds(), Axes(), Combo(), ComboRandom(), DCombo(), VPick(), View(), ViewRandom()],
     trusted_base=["the `echo` callback-property library (SelectionCallbackProperty._choices_updated / __set__, delay_callback, CallbackList) is modelled (its selection rule) or assumed (callback ordering), validated by the correspondence families",
-                  "matplotlib / astropy WCSAxes drawing is stubbed out in the harness process (FigureCanvasAgg.draw, draw_idle): only the layer bookkeeping of the viewers is under test",
+                  "matplotlib / astropy WCSAxes drawing is stubbed out in the harness process (FigureCanvasAgg.draw, draw_idle, WCSAxes._update_tick_and_label_positions): only the layer bookkeeping of the viewers is under test",
                   "GlueSerializer / GlueUnSerializer are exercised for viewer save + restore, their effect on the bookkeeping is modelled (restored objects stand for the saved ones)",
                   "C06's collection model and invariant (Model/Collection.lean, Lemmas/C06.lean) for the datasets / subset groups underneath the viewer"],
     assumptions=["datasets enter the collection without subsets of their own; subsets are created through new_subset_group only (C06)",
-                 "viewer correspondence uses 2-d datasets of one shape for all four viewer classes; layer z-order is never edited by hand (viewer.layers is sorted by zorder)",
+                 "viewer correspondence uses 2-d datasets of one shape for all four viewer classes, plus 1-d tables / region lists as overlays in the image viewer (which refuses them by raising while it has no layer: modelled as a refused request, theorem viewer_refusing_spec); layer z-order is never edited by hand (viewer.layers is sorted by zorder)",
                  "x_att / y_att setters are called with pixel axes of the current reference data; explicit selections of None only while None is on offer (echo accepts None unconditionally: theorem explicit_none_accepted)",
                  "snapshots taken while a hub delay block is open are compared with the model but not judged by the Spec (the helper has not been told yet, by design)",
-                 "restore is checked for the scatter and image viewers; histogram / profile viewers cannot be restored on this tree (known finding C18c = C12's F12)"],
-    rule="kinds: introspection of the tree under test - every Component subclass (recursive __subclasses__, CoordinateComponent split pixel / world) must be a constructor of the model's CompClass and occur in one of the generator's datasets, every string Data.get_kind can return (read off its source + measured on the generated components) must be a constructor of the model's Kind; all 128 flag combinations x every component class (flags through the constructor / through the setters, alternating). Dataset templates of the picker families: std (categorical, datetime, numerical, pixel + world coordinate), reg (RegionData: three numerical columns + the extended region column), ext1 (Data + ExtendedComponent), dask (categorical + DaskComponent), drv (2-d, affine coordinates, derived component), bare (2-d, no coordinates). combo also: every template x all 128 flag combinations (flags before / after append_data, two orders), six template pairs x 128, an extended and a dask component added and moved to the front x 128, every pair (thorough: triple) of ops over a 27-letter alphabet on every non-standard template; combor: two thirds of the histories on random templates, ac draws from five component classes; dcombo: every fourth case on rotating templates; vpick also: every sequence of 2 / 4 ops over a 7-letter alphabet with flag flips (after both datasets became layers / entered the collection) on six template pairs, all 128 flag combinations for every picker x template pair (8 walks of 16), random histories on random templates with flag flips; viewr: half of the scatter / histogram histories on random templates. view: one extended viewer op (add_subset / remove_subset / remove_layer / state.layers.remove / restore / second-dataset ops) at every position of every core sequence (append/remove x2 datasets, new group, remove group, add_data x2, remove_data) of length 2 (quick) / 3 (thorough); every core sequence of length 4 / 5; every sequence of length 5 / 7 over a 5-letter one-dataset alphabet; viewer class rotating by case; viewr: seeded random histories of length 4-15 / 4-40 over 2-3 datasets, up to 3 groups, with restores. vpick: the x/y attribute pickers of ScatterViewerState / HistogramViewerState read in situ after every step of every core viewer history of length 3 / 4, one extended op after every core history of length 2 / 3, 150 / 6000 random histories. combo: every sequence of 3 ops over a 25-letter core alphabet after helper.append_data + every pair over the full 39-letter alphabet after three prefixes (thorough: triples over the full alphabet, 4-sequences over 19 letters); combor: random length 4-15 / 4-40. dcombo: every sequence of length 3-4 / 4-5 over 12-15 letters for both helper classes and two initial collections. axes: every setter sequence of length 3 (thorough 4, all three coordinate kinds) on a 3-d and a 2-d reference dataset, every sequence of length 2 (thorough 4) over the full 18-letter alphabet incl. reference-data changes and layers coming and going, samples of the next length. non-trivial = the history touches both sides (e.g. add_data and a collection change).",
+                 "restore is checked for all four viewer classes (histogram / profile viewers with layers need C12's fix F12b; glue_qt is not installed, so their layer-artist records load as the live classes)"],
+    rule="kinds: introspection of the tree under test - every Component subclass (recursive __subclasses__, CoordinateComponent split pixel / world) must be a constructor of the model's CompClass and occur in one of the generator's datasets, every string Data.get_kind can return (read off its source + measured on the generated components) must be a constructor of the model's Kind; all 128 flag combinations x every component class (flags through the constructor / through the setters, alternating). Dataset templates of the picker families: std (categorical, datetime, numerical, pixel + world coordinate), reg (RegionData: three numerical columns + the extended region column), ext1 (Data + ExtendedComponent), dask (categorical + DaskComponent), drv (2-d, affine coordinates, derived component), bare (2-d, no coordinates). combo also: every template x all 128 flag combinations (flags before / after append_data, two orders), six template pairs x 128, an extended and a dask component added and moved to the front x 128, every pair (thorough: triple) of ops over a 27-letter alphabet on every non-standard template; combor: two thirds of the histories on random templates, ac draws from five component classes; dcombo: every fourth case on rotating templates; vpick also: every sequence of 2 / 4 ops over a 7-letter alphabet with flag flips (after both datasets became layers / entered the collection) on six template pairs, all 128 flag combinations for every picker x template pair (8 walks of 16), random histories on random templates with flag flips; viewr: half of the scatter / histogram histories on random templates. view: one extended viewer op (add_subset / remove_subset / remove_layer / state.layers.remove / restore / second-dataset ops) at every position of every core sequence (append/remove x2 datasets, new group, remove group, add_data x2, remove_data) of length 2 (quick) / 3 (thorough); every core sequence of length 4 / 5; every sequence of length 5 / 7 over a 5-letter one-dataset alphabet; viewer class rotating by case; viewr: seeded random histories of length 4-15 / 4-40 over 2-3 datasets, up to 3 groups, with restores. vpick: the x/y attribute pickers of ScatterViewerState / HistogramViewerState read in situ after every step of every core viewer history of length 3 / 4, one extended op after every core history of length 2 / 3, 150 / 6000 random histories. combo: every sequence of 3 ops over a 25-letter core alphabet after helper.append_data + every pair over the full 39-letter alphabet after three prefixes (thorough: triples over the full alphabet, 4-sequences over 19 letters); combor: random length 4-15 / 4-40. dcombo: every sequence of length 3-4 / 4-5 over 12-15 letters for both helper classes and two initial collections. axes: every setter sequence of length 3 (thorough 4, all three coordinate kinds) on a 3-d and a 2-d reference dataset, every sequence of length 2 (thorough 4) over the full 18-letter alphabet incl. reference-data changes and layers coming and going, samples of the next length; images and 1-d tables mixed (dimension pairs 3+1, 1+2, 2+1, 1+1; tables get ScatterLayerStates as in the viewer): every sequence of length 2 (thorough 3) over the full alphabet from the empty state and after both became layers, samples of the next length, random histories. view also: save + restore of all four viewer classes inside the core histories; image viewer with a table / region list (templates std, reg, ext1) next to an image: every sequence of 3 (thorough 4) ops over an 8-letter alphabet (add_data / remove_data of both, dc.remove of the image, new group, state.layers.remove of the image, restore) after both became layers, of 2 (3) after both entered the collection; viewr: half of the image-viewer histories on mixed image / table templates. non-trivial = the history touches both sides (e.g. add_data and a collection change).",
     partial_note="Partial for per-viewer State subclasses: 'all callback-property values of State subclasses' is covered only as far as ImageViewerState's axis attributes, the viewers' layers list and the SelectionCallbackProperty rule; other callback properties (limits, colours, ...) are not modelled.",
 )
